@@ -98,7 +98,7 @@ func RunHistory(cfg Config, seed int64, dir string) *Result {
 	}
 	m := NewModel(cfg.Maturity)
 	x := &runner{cfg: cfg, r: r, m: m, g: NewGen(r, m), dir: dir, seed: seed,
-		res: &Result{Stats: map[string]int{}}, ids: [][32]byte{{1}, {2}, {3}}}
+		res: &Result{Stats: map[string]int{}}, ids: [][32]byte{{}, {1}, {2}, {0xff, 0xff}}}
 	st, err := NewStore(dir, fmt.Sprintf("h%d-%d.db", seed, os.Getpid()), cfg.Maturity)
 	if err != nil {
 		x.res.Diff = &Diff{"harness:create-store", err.Error()}
